@@ -33,6 +33,7 @@ RULE += ' In the LLM tool loop one provider turn requests the tool under test tw
 RULE += " Capability sets include non-enum string tags ('gpu', 'custom:db', which the engine supports) and sets larger than the enum (up to 8 entries)."
 RULE += " Round 7: `peer` steps build a second engine with an allowed set of its own, hand it the very tool object the first engine holds (engulf_tool(m.tools[name])) and request the tool there; every request is judged by the policy of the engine it was made on and the requirement declared at registration."
 RULE += " Round 8: `policy` steps replace the engine's allowed set through its public `allowed_capabilities` attribute between requests."
+RULE += " Round 10: about half of the SimpleTool objects are constructed positionally (name, description, func, required_capabilities)."
 EXHAUSTIVE_NOTE = {"quick": "16 allowed sets (incl. None, empty, full, sets with non-enum tags and sets larger than the enum) x 16 required sets x 10 entry points = 2560 single-tool cases, complete for that lattice; re-registration race: 3 configurations x 4 entry points x every single preemption point up to step 90",
                    "thorough": "same lattice, complete; race table up to step 160"}
 
@@ -166,6 +167,9 @@ def judge(case):
         counters.setdefault(name, 0)
         required[name] = set(caps)
         if how == "engulf":
+            if counters[name] == 0 and len(name) % 2 == 0:
+                m.engulf_tool(SimpleTool(name, "d", body, capset))      # positionally, in the documented field order
+                return
             m.engulf_tool(SimpleTool(name=name, description="d", func=body, required_capabilities=capset))
         elif how == "register_function":
             m.register_function(name, body, "d", required_capabilities=capset)
@@ -183,6 +187,9 @@ def judge(case):
         body = mk_body(name, caps)
         counters.setdefault(name, 0)
         required[name] = set(caps)
+        if len(init_tools) % 2 == 1:
+            init_tools.append(SimpleTool(name, "d", body, capset))      # positionally, in the documented field order
+            continue
         init_tools.append(SimpleTool(name=name, description="d", func=body, required_capabilities=capset))
     try:
         m = Mitochondria(tools=init_tools or None, allowed_capabilities=allowed, silent=True, max_ros=1000.0)
